@@ -7,6 +7,7 @@ ID="$1"
 exec 9>"$WORK/build.lock"; flock 9
 case "$ID" in
   C18) KIND=test18;;
+  C19) KIND=inst; CFG=c19; MAINPKG=vhc19; RACE=1; TARGETS="internal/core/runtime:index.go,imports.go cue:decode.go internal/core/convert:go.go internal/core/adt:context.go cue/token:position.go";;
   C14) KIND=inst; CFG=c14; MAINPKG=vhc14; TARGETS="internal/par:work.go internal/mod/mvs:mvs.go";;
   *) KIND=plain;;
 esac
@@ -25,6 +26,9 @@ case "$KIND" in
     "$WORK/bin/instrument" -out "$WORK/inst/$CFG" $TARGETS > "$WORK/inst/$CFG/frag.json" || { echo "ENGINE-ERROR instrumenter failed" >&2; exit 2; }
     /verif/lib/gen_overlay.py "$WORK/overlay-$CFG.json" "$WORK/inst/$CFG/frag.json" >&2
     (cd /repo && go build -overlay "$WORK/overlay-$CFG.json" -o "$WORK/bin/verifh-$CFG" ./internal/verif/cmd/$MAINPKG) >&2
+    if [ "${RACE:-}" = 1 ]; then
+      (cd /repo && go build -race -overlay "$WORK/overlay-$CFG.json" -o "$WORK/bin/verifh-$CFG-race" ./internal/verif/cmd/$MAINPKG) >&2
+    fi
     echo "$WORK/bin/verifh-$CFG";;
   test18)
     /verif/lib/gen_overlay.py "$WORK/overlay.json" >&2
